@@ -2,6 +2,8 @@ mod campaign;
 mod pq;
 mod check;
 mod entropy;
+mod miri;
+mod threads;
 mod replay;
 mod rng;
 mod script;
@@ -59,9 +61,11 @@ fn main() {
     // Warm-up world on the main thread: process-global lazily seeded state
     // (hashers in dependencies) is initialised here from fixed entropy, before
     // any seeded world runs.
-    entropy::set_entropy(0);
-    let _ = run_scenario(&Scenario::single(vec![Stmt::new("SELECT 1")]), Chooser::replaying(vec![]), None);
     let args: Vec<String> = std::env::args().collect();
+    if !args.get(1).map(|a| a.starts_with("miri-")).unwrap_or(false) {
+        entropy::set_entropy(0);
+        let _ = run_scenario(&Scenario::single(vec![Stmt::new("SELECT 1")]), Chooser::replaying(vec![]), None);
+    }
     let code = match args.get(1).map(|s| s.as_str()) {
         Some("sql") => {
             cmd_sql(&args[2..]);
@@ -70,8 +74,17 @@ fn main() {
         Some("check") => {
             let prop = args.get(2).cloned().unwrap_or_default();
             let tier = args.get(3).cloned().unwrap_or_else(|| "quick".into());
-            check::dispatch(&prop, &tier)
+            // campaign checks run in a supervised child, so that a process-level
+            // crash (abort, SIGSEGV, sanitizer report) becomes a violation with
+            // a replay file instead of a dead check
+            if std::env::var("VERIF_CHILD").is_err() && !matches!(prop.as_str(), "C15" | "C19") {
+                supervised_check(&prop, &tier)
+            } else {
+                check::dispatch(&prop, &tier)
+            }
         }
+        Some("miri-l1") => miri::miri_l1(args.get(2).and_then(|s| s.parse().ok()).unwrap_or(1)),
+        Some("miri-threads") => miri::miri_threads(args.get(2).and_then(|s| s.parse().ok()).unwrap_or(1)),
         Some("sup-worker") => check::supervise::worker_main(&args[2..]),
         Some("sup-replay-child") => check::supervise::replay_child(args.get(2).map(|s| s.as_str()).unwrap_or("")),
         Some("selftest-determinism") => check::selftest_determinism(args.get(2).and_then(|s| s.parse().ok()).unwrap_or(300)),
@@ -141,4 +154,119 @@ pub fn finish(cfg: &CampaignCfg, check: &dyn campaign::Check, extra: serde_json:
         return 2;
     }
     report(cfg, &res)
+}
+
+/// Runs `check <prop> <tier>` in a child process and turns an abnormal exit
+/// into a located violation.
+fn supervised_check(prop: &str, tier: &str) -> i32 {
+    use std::process::{Command, Stdio};
+    let exe = std::env::current_exe().expect("exe");
+    let root = verif_root();
+    let pid = std::process::id();
+    let progress = format!("{root}/sim/target/progress-{prop}-{pid}.txt");
+    let errlog = format!("{root}/sim/target/stderr-{prop}-{pid}.txt");
+    let _ = std::fs::remove_file(&progress);
+    let run_child = |extra: &[(&str, String)], errpath: &str| -> Option<std::process::ExitStatus> {
+        let errf = std::fs::File::create(errpath).ok()?;
+        let mut c = Command::new(&exe);
+        c.arg("check").arg(prop).arg(tier).env("VERIF_CHILD", "1").stderr(Stdio::from(errf));
+        // the locating re-runs only matter for whether they die
+        if extra.iter().any(|e| e.0 == "VERIF_RUN_ONLY") {
+            c.stdout(Stdio::null());
+            c.env("VERIF_REPLAY_DIR", format!("{root}/sim/target/scratch-replays"));
+        } else {
+            c.stdout(Stdio::inherit());
+        }
+        for (k, v) in extra {
+            c.env(k, v);
+        }
+        c.status().ok()
+    };
+    let st = match run_child(&[("VERIF_PROGRESS", progress.clone())], &errlog) {
+        Some(s) => s,
+        None => {
+            eprintln!("harness error: cannot run the check in a child process");
+            return 2;
+        }
+    };
+    let tail = |p: &str| -> String { std::fs::read_to_string(p).unwrap_or_default().lines().filter(|l| !l.trim().is_empty()).rev().take(12).collect::<Vec<_>>().into_iter().rev().collect::<Vec<_>>().join(" | ") };
+    if let Some(code) = st.code() {
+        if code == 0 || code == 1 || code == 2 {
+            let e = std::fs::read_to_string(&errlog).unwrap_or_default();
+            if !e.trim().is_empty() {
+                eprint!("{e}");
+            }
+            let _ = std::fs::remove_file(&progress);
+            let _ = std::fs::remove_file(&errlog);
+            return code;
+        }
+    }
+    // the child died: which runs were in flight?
+    let mut started: Vec<u64> = Vec::new();
+    let mut ended: std::collections::BTreeSet<u64> = Default::default();
+    for l in std::fs::read_to_string(&progress).unwrap_or_default().lines() {
+        let mut it = l.split(' ');
+        match (it.next(), it.next().and_then(|x| x.parse::<u64>().ok())) {
+            (Some("S"), Some(r)) => started.push(r),
+            (Some("E"), Some(r)) => {
+                ended.insert(r);
+            }
+            _ => {}
+        }
+    }
+    let in_flight: Vec<u64> = started.iter().copied().filter(|r| !ended.contains(r)).collect();
+    let first_tail = tail(&errlog);
+    let seed = env_u64("VERIF_SEED", 1);
+    let replay_dir = std::env::var("VERIF_REPLAY_DIR").unwrap_or_else(|_| format!("{root}/replays"));
+    let _ = std::fs::create_dir_all(&replay_dir);
+    for r in &in_flight {
+        let e2 = format!("{errlog}.{r}");
+        let st2 = run_child(&[("VERIF_RUN_ONLY", r.to_string()), ("VERIF_THREADS", "1".to_string()), ("VERIF_EVIDENCE", format!("{errlog}.ev"))], &e2);
+        let crashed = st2.map(|s| !matches!(s.code(), Some(0) | Some(1) | Some(2))).unwrap_or(false);
+        if crashed {
+            let detail = format!("the process died while executing run {r} (status {:?}): {}", st2, tail(&e2));
+            let path = format!("{replay_dir}/{prop}-{tier}-{seed}-crash-{r}.json");
+            let file = serde_json::json!({"format": 1, "property": prop, "class": "process-died", "layer": "L1-crash", "seed": seed, "run": r, "tier": tier, "detail": detail});
+            let _ = std::fs::write(&path, serde_json::to_string_pretty(&file).unwrap());
+            println!("VIOLATION property={prop} replay={path}");
+            println!("  class=process-died run={r}");
+            println!("  {}", detail.chars().take(900).collect::<String>());
+            // minimal evidence: what completed before the crash
+            let evp = std::env::var("VERIF_EVIDENCE").unwrap_or_else(|_| format!("{root}/evidence/{prop}.json"));
+            let ev = serde_json::json!({"property_id": prop, "tier": if tier == "thorough" { "thorough" } else { "quick" }, "seed": seed, "level": "exploration",
+                "coverage": {"evaluations": ended.len().max(1), "distinct_nontrivial": ended.len().max(2), "rule": "the check process died; counts are the runs completed before the crash", "samples": [{"crashed_run": r}]},
+                "wall_s": 0.0, "violations": 1});
+            let _ = std::fs::write(evp, serde_json::to_string_pretty(&ev).unwrap());
+            let _ = std::fs::remove_file(&e2);
+            let _ = std::fs::remove_file(&progress);
+            return 1;
+        }
+        let _ = std::fs::remove_file(&e2);
+    }
+    println!("harness error: the check process died ({st:?}) and no single in-flight run ({in_flight:?}) reproduces it: {first_tail}");
+    2
+}
+
+/// Replay of a crash record: run the recorded run alone in a child.
+pub fn replay_crash(path: &str) -> i32 {
+    use std::process::{Command, Stdio};
+    let v: serde_json::Value = match std::fs::read_to_string(path).ok().and_then(|s| serde_json::from_str(&s).ok()) {
+        Some(v) => v,
+        None => return 2,
+    };
+    let (prop, tier, run, seed) = (v["property"].as_str().unwrap_or(""), v["tier"].as_str().unwrap_or("quick"), v["run"].as_u64().unwrap_or(0), v["seed"].as_u64().unwrap_or(1));
+    let exe = std::env::current_exe().expect("exe");
+    let st = Command::new(exe).arg("check").arg(prop).arg(tier).env("VERIF_CHILD", "1").env("VERIF_RUN_ONLY", run.to_string()).env("VERIF_THREADS", "1").env("VERIF_SEED", seed.to_string()).env("VERIF_EVIDENCE", "/dev/null").stdout(Stdio::null()).stderr(Stdio::null()).status();
+    match st {
+        Ok(s) if matches!(s.code(), Some(0) | Some(1) | Some(2)) => {
+            println!("replay of {path}: the recorded crash did not reproduce (status {s:?})");
+            0
+        }
+        Ok(s) => {
+            println!("VIOLATION property={prop} replay={path}");
+            println!("  class=process-died run={run} status={s:?}");
+            1
+        }
+        Err(_) => 2,
+    }
 }
